@@ -1,32 +1,39 @@
 #!/bin/bash
 # Run a command with a modified copy of the repository mounted at /repo, in a private mount namespace.
 #   tools/nsrun.sh <worktree-or-patch.diff> <name> -- <command...>     e.g.  tools/nsrun.sh seeded/C10-a/patch.diff c10a -- ./check C10
-# Inside the namespace /repo is the modified tree and /verif/{coq,evidence,replays,.cache} are private copies
-# (the cargo target dir is copied from /verif/.cache/target, so only the changed crates rebuild). Nothing
-# outside the namespace is touched: /repo, the real evidence files and the shared build caches stay as they are.
-set -e
+# Inside the namespace /repo is the modified tree and /verif/{coq,evidence,replays,.cache} are private
+# (the cargo target dir is an overlayfs over /verif/.cache/target: nothing is copied, only the changed crates
+# rebuild into a private upper layer). Nothing outside the namespace is touched.
+# ALWAYS clean up when the run has been read:  tools/nsrun.sh --clean <name>
+if [ "$1" = "--clean" ]; then
+  git -C /repo worktree remove --force /tmp/nsrun/$2/wt 2>/dev/null
+  rm -rf /tmp/nsrun/$2
+  git -C /repo worktree prune
+  exit 0
+fi
 SRC="$1"; NAME="$2"; shift 3
 ALT=/tmp/nsrun/$NAME
 mkdir -p $ALT
 if [ -d "$SRC" ]; then WT="$SRC"; else
   WT=$ALT/wt
   git -C /repo worktree remove --force $WT 2>/dev/null || true
-  git -C /repo worktree add -q $WT HEAD
-  git -C $WT apply "$(realpath $SRC)"
+  git -C /repo worktree add -q $WT HEAD || exit 2
+  git -C $WT apply "$(realpath $SRC)" || { echo "[nsrun] patch does not apply"; exit 2; }
 fi
-mkdir -p $ALT/cache $ALT/evidence $ALT/replays
+mkdir -p $ALT/cache/target $ALT/evidence $ALT/replays $ALT/ov_upper $ALT/ov_work
 rsync -a --delete /verif/coq/ $ALT/coq/
-if [ ! -d $ALT/cache/target ]; then cp -a /verif/.cache/target $ALT/cache/target; fi
 cp -f /verif/evidence/*.json $ALT/evidence/ 2>/dev/null || true
 export NS_WT=$WT NS_ALT=$ALT
-set +e
 unshare -m bash -c '
+  if [ ! -e $NS_ALT/cache/target/debug ]; then
+    mount -t overlay overlay -o lowerdir=/verif/.cache/target,upperdir=$NS_ALT/ov_upper,workdir=$NS_ALT/ov_work $NS_ALT/cache/target || exit 3
+  fi
   mount --bind $NS_WT /repo
   mount --bind $NS_ALT/coq /verif/coq
-  mount --bind $NS_ALT/cache /verif/.cache
+  mount --rbind $NS_ALT/cache /verif/.cache
   mount --bind $NS_ALT/evidence /verif/evidence
   mount --bind $NS_ALT/replays /verif/replays
   cd /verif && "$@"' bash "$@"
 rc=$?
-echo "[nsrun] exit=$rc; private outputs under $ALT (evidence/, replays/). Remove with: git -C /repo worktree remove --force $ALT/wt; rm -rf $ALT"
+echo "[nsrun] exit=$rc; private outputs under $ALT (evidence/, replays/). Clean up NOW if you are done: tools/nsrun.sh --clean $NAME"
 exit $rc
